@@ -56,6 +56,15 @@ Differs(exp, got) == got.n # exp.n \/ (IF exp.dig = "vals"
 ReadItem(p, r, o, m) ==      \* o: observed dataset record, m: model object
   LET got == o[r]  exp == m.data[r] IN
   IF got.res = "panic" THEN <<[diag |-> "read-panic", p |-> p, read |-> r, dt |-> m.dt]>>
+  \* never written, but resized: the space Resize added reads as zero - so the read succeeds, returns the whole extent, and
+  \* (rank 1, where positions are indices) every element beyond the smallest extent the dataset has had is 0
+  ELSE IF ~m.written /\ m.grownbare # <<>> /\ r = "f64" /\ m.dt.cls \in {0, 1} /\ m.dt.size \in {4, 8}
+       THEN IF got.res # "ok" THEN <<[diag |-> "read-error", p |-> p, read |-> r, dt |-> m.dt, chunked |-> m.chunk # <<>>, neverwritten |-> TRUE]>>
+            ELSE IF got.data.n # Prod(m.dims)
+                    \/ (Len(m.dims) = 1 /\ Len(got.data.vals) = got.data.n /\ \E i \in (m.grownbare[1] + 1)..got.data.n : got.data.vals[i] # 0)
+                 THEN <<[diag |-> "value-mismatch", p |-> p, read |-> r, dt |-> m.dt, chunked |-> m.chunk # <<>>, regrown |-> FALSE, neverwritten |-> TRUE,
+                         exp |-> [n |-> Prod(m.dims), dig |-> "zero-beyond", vals |-> m.grownbare], got |-> got.data]>>
+                 ELSE <<>>
   ELSE IF ~m.written \/ exp.dig = "unknown" THEN <<>>
   ELSE IF Offered(r, m.dt) /\ exp.dig # "none"
        THEN IF got.res # "ok" THEN <<[diag |-> "read-error", p |-> p, read |-> r, dt |-> m.dt, chunked |-> m.chunk # <<>>]>>
@@ -192,6 +201,9 @@ Step(e) ==
               IF e.res = "ok"
               THEN IF ~(resizable /\ within) THEN Reject(e, "resize-beyond-max-accepted", [dims |-> e.dims, max |-> m.max]) /\ UNCHANGED stats
                    ELSE /\ objs' = [objs EXCEPT ![id].dims = e.dims,
+                                       ![id].grownbare = IF m.written THEN <<>>
+                                                         ELSE [k \in DOMAIN e.dims |-> LET b == IF m.grownbare = <<>> THEN m.dims[k] ELSE m.grownbare[k]
+                                                                                      IN IF e.dims[k] < b THEN e.dims[k] ELSE b],
                                        ![id].lo = IF m.lo = <<>> THEN <<>>
                                                   ELSE [k \in DOMAIN e.dims |-> IF e.dims[k] < m.lo[k] THEN e.dims[k] ELSE m.lo[k]],
                                        ![id].regrown = m.regrown \/ (m.lo # <<>> /\ \E k \in DOMAIN e.dims : e.dims[k] > m.lo[k] /\ m.lo[k] < MaxWritten(m, k)),
